@@ -2,6 +2,8 @@ import Sparrow.Model.Collect
 import Sparrow.Model.Bake
 import Sparrow.Model.Source
 import Driver.Parse
+import Sparrow.Model.Lifecycle
+import Sparrow.Generated.CheckParse
 open Sparrow Driver
 
 def flat3 (P D S : Nat) (T : Tab3 Float) : Array Float := Id.run do
@@ -206,6 +208,64 @@ def cmdSrcEnergy : P String := do
   return "ok " ++ hexOfFloat (sourceEnergy (vis != 0) d att pt) ++ " " ++
     hexOfFloat (sourceDistance (vis != 0) d)
 
+/-- `checkcfg <cfg tokens>`: model of `DirectionalRadiosityFast(**dict)`: conversions then `check()`. -/
+def cmdCheckCfg : P String := do
+  let c ← Sparrow.Generated.parseCfg
+  match Sparrow.Generated.checkGen (Sparrow.Generated.convert c) with
+  | .ok () => return "ok accepted"
+  | .error e => return "err " ++ e.toString
+
+open Sparrow.Life
+
+partial def termStr : Term → String
+  | .none => "~"
+  | .inp s => s
+  | .app f args => f ++ "(" ++ ",".intercalate (args.map termStr) ++ ")"
+
+def stStr (s : St) : String :=
+  let l (xs : Option (List Term)) : String := match xs with
+    | none => "~"
+    | some ts => "[" ++ "/".intercalate (ts.map termStr) ++ "]"
+  let ix : String := match s.index with
+    | none => "~"
+    | some is => "[" ++ "/".intercalate (is.map toString) ++ "]"
+  ";".intercalate [
+    "freq=" ++ termStr s.freq, "brdf=[" ++ "/".intercalate (s.brdf.map termStr) ++ "]", "index=" ++ ix,
+    "dirsIn=" ++ l s.dirsIn, "dirsOut=" ++ l s.dirsOut, "att=" ++ termStr s.att,
+    "vis=" ++ termStr s.vis, "visible=" ++ termStr s.visible, "ff=" ++ termStr s.ff,
+    "fft=" ++ termStr s.fft, "p2o=" ++ termStr s.p2o, "c=" ++ termStr s.c, "dt=" ++ termStr s.dt,
+    "dur=" ++ termStr s.dur, "d0=" ++ termStr s.d0, "e0=" ++ termStr s.e0, "etc=" ++ termStr s.etc,
+    "source=" ++ termStr s.source,
+    "eff=[" ++ "/".intercalate ((effAll s).map termStr) ++ "]" ]
+
+/-- `life W g nops (op…)*` with ops `B` | `I src` | `X par z r` | `S n w… mat` | `A a` | `R`
+    → `ok state0 | state1 | …` (the state after construction and after every op). -/
+def cmdLife : P String := do
+  let w ← nat
+  let g ← tok
+  let n ← nat
+  let mut s := fresh w g
+  let mut out := #[stStr s]
+  for _ in [0:n] do
+    let k ← tok
+    let op ← match k with
+      | "B" => pure Op.bake
+      | "I" => do let src ← tok; pure (Op.init src)
+      | "X" => do
+          let par ← tok; let z ← nat; let r ← nat
+          pure (Op.exchange par (z != 0) (r != 0))
+      | "S" => do
+          let m ← nat
+          let ws ← nats m
+          let mat ← tok
+          pure (Op.setBrdf ws.toList mat)
+      | "A" => do let a ← tok; pure (Op.setAtt a)
+      | "R" => pure Op.saveRestore
+      | _ => throw s!"op:{k}"
+    s := step s op
+    out := out.push (stStr s)
+  return "ok " ++ " | ".intercalate out.toList
+
 def dispatch (cmd : String) : P String :=
   match cmd with
   | "exchange" => cmdExchange
@@ -215,6 +275,8 @@ def dispatch (cmd : String) : P String :=
   | "ridx" => cmdRidx
   | "patchwise" => cmdPatchwise
   | "direct" => cmdDirect
+  | "checkcfg" => cmdCheckCfg
+  | "life" => cmdLife
   | "srcenergy" => cmdSrcEnergy
   | "shift" => cmdShift false
   | "roll" => cmdShift true
